@@ -250,6 +250,12 @@ def register(reg):
                       z3.Select(new.g("g:xs_owner"), s) == z3.Select(old.g("g:xs_owner"), s),
                       z3.Implies(par != VNone, z3.And(new.fld("_child_contexts", Val.a(par)) == old.fld("_child_contexts", Val.a(par)),
                                                       new.s_has(children_of(old, Val.a(par)), vref(c)) == old.s_has(children_of(old, Val.a(par)), vref(c)))))
+    def ground_ctx(eng, oldheap, newheap, a, cls):
+        """ground instance of G-init for a context in scope: an initialised context stays initialised"""
+        if "Context" not in eng.world.mro(cls):
+            return None
+        return z3.Implies(z3.Select(oldheap["g:ctx_init"], a), z3.Select(newheap["g:ctx_init"], a))
+    reg.ground_rely = list(getattr(reg, "ground_rely", [])) + [ground_ctx]
     reg.with_rely["Context"] = with_ctx
     reg.with_rely["ComponentContext"] = with_ctx
     reg.assumptions_text["A-WITH"] = ("with-statement protocol: a context entered by `async with` in this task is left only by this task: while inside "
